@@ -20,7 +20,7 @@ import UgoVerif.Proofs.CompSimProg
     with the tables regenerated from opcodes.go and token/token.go;
   * two slices of the simulation theorem compile ⊑ Sem (section "compile ⊑ Sem" below):
     `compile_expr_correct` (expressions over uncaptured scalar locals), `compile_stmt_correct` /
-    `compile_stmts_correct` (`e;`, `x := e`, `x = e`, `x op= e`, blocks, `if` / `else`, `return`), with
+    `compile_stmts_correct` (`e;`, `x := e`, `var x = e`, `x = e`, `x op= e`, blocks, `if` / `else`, `return`), with
     the VM heap related to the reference heap modulo the reference semantics' variable boxes, and
     the whole-script corollary `C02_fragment` (compile-model output, loaded and run by the VM
     model's `Run`, returns what `Sem.runProgram` returns).
@@ -412,7 +412,7 @@ theorem vm_tokens_match_source :
     error object from the same name and message (at different addresses: the heaps differ).
 
   `compile_stmt_correct` / `compile_stmts_correct`: a statement (list) of `StmtF` — `e;`, `x := e`,
-  `x = e`, `x op= e`, `{ … }`, `if c { … }`, `if c { … } else { … }` / `else if`, `return`, `return e`,
+  `var x = e`, `x = e`, `x op= e`, `{ … }`, `if c { … }`, `if c { … } else { … }` / `else if`, `return`, `return e`,
   the empty statement — compiled from `cs` to `cs'` in a state with a function table, outside `try`,
   whose slots fit (`CsOK`), the names of `B` resolved to locals (`Cov`); `L` bounds the function's
   `NumLocals` (`fnMax cs'.tables ≤ L`), the local slots `[bp, bp + L)` lie below `sp`.  For EVERY fuel
@@ -441,7 +441,7 @@ theorem vm_tokens_match_source :
   Not covered (the ladder continues): loops (`break` / `continue` patching), captured variables /
   closures / free variables, calls, arrays / maps / index / selector / slice and every other value
   with a heap address (the heap relation then needs an address map), `try` / `catch` / `finally` /
-  `throw` (C03), globals, builtins, `const` literals, `var` declarations, `++` / `--`, destructuring,
+  `throw` (C03), globals, builtins, `const` declarations, `var` without value or with several names, `++` / `--`, destructuring,
   `param`, imports / modules, `if` with an init statement or a boolean literal as condition, and the
   optimizer (C01).  -/
 
@@ -678,11 +678,11 @@ example : ∃ s', Reach F0 s0 s' ∧ s'.stack[2]! = .bool true ∧ s'.sp = 3 ∧
       exact ⟨s', hreach, hget, by rw [hsp]; rfl, by rw [hip, hsz0]; rfl, hsame.frames, hheap⟩
 
 /-! #### non-vacuity of the statement slice and of `C02_fragment`:
-    `x := 3; y := x * 2; if y > 5 { x = x + y } else { x = 0 }; return x - 1` -/
+    `x := 3; var y = x * 2; if y > 5 { x = x + y } else { x = 0 }; return x - 1` -/
 
 def file0 : List Stmt :=
   [ .assign 1 tDefine [.ident 1 "x"] [.int 6 3#64],
-    .assign 8 tDefine [.ident 8 "y"] [.binary 13 tMul (.ident 13 "x") (.int 17 2#64)],
+    .declValue 8 tVar [(some 0, [(12, "y")], [some (.binary 16 tMul (.ident 16 "x") (.int 20 2#64))])],
     .if_ 20 none (.binary 23 tGreater (.ident 23 "y") (.int 27 5#64)) 29
       [.assign 31 tAssign [.ident 31 "x"] [.binary 35 tAdd (.ident 35 "x") (.ident 39 "y")]]
       (some (.block 48 [.assign 50 tAssign [.ident 50 "x"] [.int 54 0#64]])),
@@ -739,10 +739,10 @@ example : ∃ n, ∀ fuel, n ≤ fuel → (runFrom F0 fuel .nil [] (loadProg bc0
 end Ex
 /-- the source-level statement (not proved; tested by stream `sem`).  Proved slices of it:
     `compile_expr_correct`, `compile_stmt_correct`, `compile_stmts_correct`, `C02_fragment` above —
-    scripts built from expression statements, `:=` / `=` / compound assignment on uncaptured scalar
+    scripts built from expression statements, `:=` / `var` / `=` / compound assignment on uncaptured scalar
     locals, blocks, `if` / `else`, `return`.  Still only tested: loops, captured variables / closures,
     calls, containers (arrays, maps, index, selector, slice), `try` / `catch` / `finally` / `throw`,
-    globals, modules / imports, builtins, `const` / `var` declarations, `++` / `--`, destructuring,
+    globals, modules / imports, builtins, `const` declarations, `++` / `--`, destructuring,
     `param`, and the fall-off-the-end RETURN of `Bytecode()` when the stream ends in a RETURN -/
 def C02_full (Script Input Outcome : Type) (impl sem : Script → Input → Option Outcome) : Prop :=
   ∀ p i o₁ o₂, impl p i = some o₁ → sem p i = some o₂ → o₁ = o₂
